@@ -21,9 +21,26 @@ Sub-checks (DESIGN.md "### C01"):
                   limit, non-finite floats, long strings, deep/wide containers); every public entry point
                   that takes an expression string (metabolize on every pathway, digest_glucose); silent=True
                   and silent=False (stdout is a strict UTF-8 text stream); crash-prone inputs run in a
-                  forked child; ROS latch histories explored to fixpoint/depth.
+                  forked child; ROS latch histories explored to fixpoint/depth (also judged for confinement and
+                  tool discipline at every ROS level).
+  2b configuration  the engine's constructor parameters are part of "the safe computation engine": the full product
+                  timeout_seconds {0, 0.0, -0.0, denormal, tiny, 0.5, 5.0, int, huge, float-max, huge int, inf, nan} x
+                  max_ros {0, 0.1, 0.3, 1.0, huge, inf, nan} x silent x allowed_capabilities {None, empty, one, all}
+                  (plus the three tool-registration routes) x a core set of succeeding / failing / forbidden
+                  expressions x every entry point, on a fresh engine per case, each call twice; the hostile and
+                  awkward-result strings x timeout x silent; the confinement contexts (depth 1 quick / 2 thorough) x
+                  every configuration one dimension away from the baseline; tool answers (odd return values, every
+                  builtin Exception class without a message, odd messages, a bare assert) x timeout x silent; every
+                  prefix of <=2 public operations (calls on the same engine, on another engine of the process,
+                  observers, repair, execute_tool_call, re-registration, tools.pop, attribute setting) before a judged
+                  case, with the registered-tool set tracked by the harness.  Oracle: never raises / returns the
+                  documented type, forbidden probes fail, a tool body runs only when the string addresses a tool
+                  registered on that engine on a tool-executing pathway, a name that is neither documented-pure nor
+                  registered cannot be called, and a string a fresh engine refuses is not accepted after a history.
+                  Every call runs under a CPU-time watchdog (a spinning call is reported, not waited for).
   3 resource      magnitude alphabet in forked children (RLIMIT_AS 4 GiB, RLIMIT_CPU = deadline):
-                  a child killed by the kernel for exceeding the CPU deadline never returned.
+                  a child killed by the kernel for exceeding the CPU deadline never returned.  Cheap expressions
+                  under every timeout value, unbounded ones also under the zero / tiny budgets.
 
 Oracle (from the property text only): a forbidden probe in a strict hole must yield a failure result
 (success => the evaluator evaluated the forbidden node, whatever its laziness); a name outside the
@@ -60,6 +77,7 @@ from mc import common
 
 import operon_ai.organelles.mitochondria as mito_mod
 from operon_ai.organelles.mitochondria import MetabolicPathway, MetabolicResult, Mitochondria, SimpleTool
+from operon_ai.core.types import Capability
 
 INF = float("inf")
 PATHWAYS = {
@@ -78,13 +96,13 @@ TOOL_CALLS: list = []  # (tool name, args, kwargs) of every tool body that ran
 TOOL_ARGV: list = []   # (positional values, keyword values) the tool bodies received (in-process use only)
 
 
-def _mk_tool(name):
+def _mk_tool(name, caps=()):
     def body(*a, **k):
         TOOL_CALLS.append((name, len(a), tuple(sorted(k))))
         TOOL_ARGV.append((a, k))
         return ("tool-ran", name)
 
-    return SimpleTool(name=name, description="recording tool", func=body)
+    return SimpleTool(name=name, description="recording tool", func=body, required_capabilities=set(caps))
 
 
 TOOLSETS = {
@@ -94,6 +112,8 @@ TOOLSETS = {
     "prefix": ("ABS", "Max", "Rec", "", "[", "Getattr", "__Import__"),
     # named like allow-listed functions: auto-detection routes abs(...) to the tool pathway
     "shadow": ("abs", "max", "len", "int", "rec"),
+    # configuration family (section 2b): tools that declare required capabilities (see TOOL_CAPS)
+    "cfg": ("rec", "net", "fs"),
 }
 TS_ORDER = ("none", "rec", "prefix", "shadow")
 
@@ -861,7 +881,7 @@ def _write_all(fd, data):
 
 
 def run_children(fn, args, cpu_s, par):
-    """Run fn(arg) for every arg in its own forked child, `par` at a time.
+    """Run fn(arg) for every arg in its own forked child, `par` at a time (cpu_s: one limit or one per arg).
     -> list of (status, payload): ('done', result) | ('signal', signo) | ('exit', code) | ('stuck', None)."""
     args = list(args)
     results = [None] * len(args)
@@ -874,7 +894,7 @@ def run_children(fn, args, cpu_s, par):
             pid = os.fork()
             if pid == 0:
                 os.close(rfd)
-                _child_main(fn, args[nxt], cpu_s, wfd)
+                _child_main(fn, args[nxt], cpu_s[nxt] if isinstance(cpu_s, (list, tuple)) else cpu_s, wfd)
             os.close(wfd)
             os.set_blocking(rfd, False)
             live[pid] = [nxt, rfd, time.time(), b""]
@@ -1097,7 +1117,8 @@ def run_totality_children(deep, par):
 
 class RosModel:
     """Engine A over the ROS latch: histories of failing / succeeding / hostile calls and repair()."""
-    EXPRS = ["1+1", "1/0", "(1).real", f"'{SUR}'", "x" * 10001, "", "rec(1)", "[1, 2]"]
+    EXPRS = ["1+1", "1/0", "(1).real", f"'{SUR}'", "x" * 10001, "", "rec(1)", "[1, 2]", "[1,2][0]", "getattr(1, 'real')"]
+    FORBIDDEN = {2: "Attribute", 8: "Subscript", 9: "Name-outside"}  # must fail at every ROS level / after any history
 
     def roots(self):
         return [[mr, s] for mr in (0.3, 1.0) for s in (True, False)]
@@ -1136,8 +1157,12 @@ class RosModel:
                     raise common.HarnessError(f"ROS model clone diverges from replay at {root} {op}")
 
     def canon(self, st):
-        # exact float: rounding would make "latched" depend on which history reached the state first
-        return (repr(st._ros_accumulated), st._ros_accumulated >= st.max_ros)
+        # exact float: rounding would make "latched" depend on which history reached the state first.  Read through
+        # the public observers (what a caller can see), not the private fields.
+        try:
+            return (repr(st.get_ros_level()), st.get_statistics()["health"] != "healthy")
+        except Exception:  # noqa: BLE001
+            return (repr(st._ros_accumulated), st._ros_accumulated >= st.max_ros)
 
     def observe(self, st):
         return repr(self.canon(st))
@@ -1150,12 +1175,588 @@ class RosModel:
                 except BaseException as e:  # noqa: BLE001
                     return [(f"raises:{type(e).__name__}:repair", f"repair({op[1]}) raised {type(e).__name__}: {e}")]
                 return []
-            res, detail, _ = call(st, self.EXPRS[op[1]], op[2])
+            res, detail, value = call(st, self.EXPRS[op[1]], op[2])
+            ran = bool(TOOL_CALLS)
+        expr = self.EXPRS[op[1]]
         if res in ("raise", "badtype"):
             return [(f"raises:{detail}:{'silent' if st.silent else 'nonsilent'}",
-                     f"Mitochondria(silent={st.silent}).metabolize({short(self.EXPRS[op[1]], 40)}) raised {detail} "
+                     f"Mitochondria(silent={st.silent}).metabolize({short(expr, 40)}) raised {detail} "
                      f"at ROS level {st._ros_accumulated:.2f}; expected a MetabolicResult")]
-        return []
+        out = []
+        if ran and not (op[2] in ("auto", "tool") and root_call_name(expr) == "rec"):
+            out.append((f"tool-ran-unaddressed:{op[2]}", f"tool body ran for {expr!r} on pathway {op[2]} at ROS level "
+                                                         f"{st._ros_accumulated:.2f}"))
+        if op[1] in self.FORBIDDEN:
+            j = judge_conf(self.FORBIDDEN[op[1]], "strict", None, expr, op[2], "rec", res, detail, value, ran)
+            if isinstance(j, tuple):
+                out.append((j[0], j[1] + f" [at ROS level {st._ros_accumulated:.2f} of max_ros={st.max_ros}]"))
+        return out
+
+
+# --------------------------------------------------------------------------------------------
+# 2b. configuration space: constructor parameters x registration route x callback answers x history
+# --------------------------------------------------------------------------------------------
+# Every public constructor parameter of the engine (timeout_seconds, max_ros, tools, allowed_capabilities, silent)
+# is a dimension of "the safe computation engine" the statement quantifies over.  Values are addressed by LABEL so
+# that a recorded case survives the JSON round trip (inf / nan / 10**400 do not).
+NAN = float("nan")
+ALLCAPS = sorted(Capability, key=lambda c: c.name)
+CFG_TIMEOUT = {
+    "0": 0, "0.0": 0.0, "-0.0": -0.0, "denormal": 5e-324, "tiny": 1e-9, "0.5": 0.5, "default": 5.0, "int": 5,
+    "huge": 1e9, "float-max": sys.float_info.max, "huge-int": 10 ** 400, "inf": INF, "nan": NAN,
+}
+CFG_MAXROS = {"0": 0, "0.1": 0.1, "0.3": 0.3, "default": 1.0, "huge": 1e308, "inf": INF, "nan": NAN}
+CFG_CAPS = {"none": None, "empty": (), "one": tuple(ALLCAPS[:1]), "all": tuple(ALLCAPS)}
+CFG_REG = ("engulf", "ctor", "register_function")  # the three public ways a tool gets registered
+# capabilities the configuration-family tools declare: rec none, net exactly the "one" capability, fs two others
+TOOL_CAPS = {"net": tuple(ALLCAPS[:1]), "fs": tuple(ALLCAPS[1:3])}
+LIB_DEFAULT = {"t": "default", "r": "default"}  # labels of the library's own defaults (for messages only)
+
+_TOOL_CACHE: dict = {}
+
+
+def _cached_tool(name):
+    if name not in _TOOL_CACHE:
+        _TOOL_CACHE[name] = _mk_tool(name, TOOL_CAPS.get(name, ()))
+    return _TOOL_CACHE[name]
+
+
+def mk_cfg_engine(cfg, toolset="cfg", tools=None):
+    """cfg = (timeout label, max_ros label, silent, capability label, registration route)."""
+    t, r, silent, caps, reg = cfg
+    allowed = None if CFG_CAPS[caps] is None else set(CFG_CAPS[caps])
+    kw = dict(timeout_seconds=CFG_TIMEOUT[t], max_ros=CFG_MAXROS[r], allowed_capabilities=allowed, silent=bool(silent))
+    tools = [_cached_tool(n) for n in TOOLSETS[toolset]] if tools is None else tools
+    if reg == "ctor":
+        return Mitochondria(tools=list(tools), **kw)
+    m = Mitochondria(**kw)
+    for tl in tools:
+        if reg == "engulf":
+            m.engulf_tool(tl)
+        else:
+            m.register_function(tl.name, tl.func, tl.description, required_capabilities=set(tl.required_capabilities))
+    return m
+
+
+def cfg_desc(cfg):
+    t, r, silent, caps, reg = cfg
+    parts = []
+    if t != LIB_DEFAULT["t"]:
+        parts.append(f"timeout_seconds={short(CFG_TIMEOUT[t], 12)}")
+    if r != LIB_DEFAULT["r"]:
+        parts.append(f"max_ros={short(CFG_MAXROS[r], 12)}")
+    if caps != "none":
+        parts.append(f"allowed_capabilities=<{caps}>")
+    parts.append(f"silent={bool(silent)}")
+    return f"Mitochondria({', '.join(parts)}; tools registered via {reg})"
+
+
+def cfg_distance(cfg):
+    """number of dimensions away from the plain configuration; recorded first in a case so that the reported
+    example of a violation key is one with as few unusual settings as possible (cases are compared by repr)"""
+    return sum(1 for a, b in zip(cfg, ("default", "default", True, "none", "engulf")) if a != b)
+
+
+def full_configs():
+    """Full product of the four value dimensions on the plain registration route, plus the other two routes
+    crossed with silent x capabilities x {default, zero} timeout."""
+    out = [(t, r, s, c, "engulf") for t in CFG_TIMEOUT for r in CFG_MAXROS for s in (True, False) for c in CFG_CAPS]
+    out += [(t, "default", s, c, reg) for reg in CFG_REG[1:] for t in ("default", "0") for s in (True, False)
+            for c in CFG_CAPS]
+    return out
+
+
+def star_configs():
+    """One dimension away from the harness baseline (timeout 5.0, never-latching max_ros, silent, unrestricted,
+    engulf_tool) in every direction: used where the full product is too large (confinement contexts)."""
+    base = ("default", "inf", True, "none", "engulf")
+    out = [base]
+    out += [(t,) + base[1:] for t in CFG_TIMEOUT if t != base[0]]
+    out += [(base[0], r) + base[2:] for r in ("default", "huge", "nan")]  # finite ones: repair() before each call
+    out += [base[:2] + (False,) + base[3:]]
+    out += [base[:3] + (c, base[4]) for c in CFG_CAPS if c != base[3]]
+    out += [base[:4] + (reg,) for reg in CFG_REG[1:]]
+    return out
+
+
+_ROOT_CALL: dict = {}
+
+
+def root_call_name(expr):
+    """Harness-side: the Name the whole string calls (what a tool invocation addresses), else None."""
+    if expr not in _ROOT_CALL:
+        try:
+            b = ast.parse(expr.strip(), mode="eval").body
+            _ROOT_CALL[expr] = b.func.id if isinstance(b, ast.Call) and isinstance(b.func, ast.Name) else None
+        except Exception:  # noqa: BLE001
+            _ROOT_CALL[expr] = None
+    return _ROOT_CALL[expr]
+
+
+def core_expressions():
+    """(kind, class, expr): the core scenarios every configuration is crossed with.  'ok' succeed on at least one
+    pathway with each value type the engine can produce, 'fail' fail for each reason the engine documents (syntax,
+    unknown name / tool, error inside an allow-listed operation or a tool argument, length guard), 'forbidden'
+    = first probe of every forbidden class at the root and as a tool argument.  Only 'forbidden' carries an
+    expectation beyond totality."""
+    L = mito_mod.MAX_EXPRESSION_LENGTH if isinstance(getattr(mito_mod, "MAX_EXPRESSION_LENGTH", None), int) else 10000
+    out = [("ok", None, e) for e in (
+        "1+1", "2 < 3", "true and false", "[1, 2]", '{"a": 1}', "rec(1, k=2)", "net(1)", "fs()", "sqrt(16) + pi",
+        "'a' * 3", "max([1, 2, 3])", "not 0", "1 if 2 else 3", "-5", "(1, 'a')", "None", "0", "''", "10**5000",
+        "inf - inf", f"'{SUR}'", "'\U0001f600' * 20")]
+    out += [("fail", None, e) for e in (
+        "1/0", "", "1 +", "undefined_name", "abs('a')", "x" * (L + 1), "nosuch(1)", "rec(", "rec(1/0)", "int('x')",
+        "\x00", "max()")]
+    seen = set()
+    for cls, probe in PROBES:
+        if cls not in seen:
+            seen.add(cls)
+            out += [("forbidden", cls, probe), ("forbidden", cls, "rec((" + probe + "))")]
+    return out
+
+
+def judge_entry(kind, cls, expr, entry, res, detail, value, ran, registered, silent, desc):
+    """Oracle shared by the configuration / callback / history families: one call of one public entry point
+    ('auto'|'math'|'logic'|'tool'|'transform' = metabolize on that pathway, 'legacy' = digest_glucose) on an engine
+    described by `desc` whose registered tool names (tracked by the harness from its own public calls) are
+    `registered`.  -> [(key, what)]"""
+    if res == "raise" and detail == "_CpuWatchdog":
+        return [(f"no-return:{'digest_glucose' if entry == 'legacy' else 'metabolize'}",
+                 f"{desc} {entry}({short(expr, 60)}) was still running after {CALL_CPU_BUDGET:.0f} s of CPU time and was "
+                 f"interrupted by the harness; expected a result (the expression needs microseconds)")]
+    if res in ("raise", "badtype"):
+        if entry == "legacy":
+            return [(f"raises:digest_glucose:{detail}",
+                     f"{desc}.digest_glucose({short(expr, 60)}) "
+                     f"{'raised ' + detail + ' to the caller' if res == 'raise' else 'returned a ' + detail}; expected a "
+                     f"str (the rendered value or its 'Metabolic Failure: ...' text)")]
+        return [(f"raises:{detail}:{'silent' if silent else 'nonsilent'}",
+                 f"{desc}.metabolize({short(expr, 60)}, pathway={entry}) "
+                 f"{'raised ' + detail + ' to the caller' if res == 'raise' else 'returned a ' + detail}; expected a "
+                 f"MetabolicResult")]
+    out = []
+    if ran and not (entry in ("auto", "tool") and root_call_name(expr) in registered):
+        out.append((f"tool-ran-unaddressed:{entry}",
+                    f"a tool body ran for {desc} {entry}({short(expr, 60)}) although the string does not address a tool "
+                    f"registered on that engine ({sorted(registered)}) on a tool-executing pathway"))
+    if kind == "forbidden":
+        if entry == "legacy":
+            if detail == "rendered" and cls not in LITERAL_ONLY_NODES:
+                out.append((f"forbidden-evaluated:{cls}:math",
+                            f"{desc}.digest_glucose({short(expr, 60)}) rendered {short(value)}: the {cls} construct was "
+                            f"evaluated (expected the 'Metabolic Failure' text)"))
+        else:
+            j = judge_conf(cls, "strict", None, expr, entry, "cfg", res, detail, value, ran and not out)
+            if isinstance(j, tuple):
+                out.append((j[0], j[1] + f" [engine: {desc}]"))
+    return out
+
+
+class _CpuWatchdog(BaseException):
+    """raised by the SIGPROF handler inside a call that burned CALL_CPU_BUDGET seconds of CPU"""
+
+
+CALL_CPU_BUDGET = 20.0  # CPU seconds (process time, so machine load cannot trigger it); every call of the in-process
+#                         families needs microseconds to milliseconds
+
+
+class _Abandon(Exception):
+    """a worker gives up its remaining enumeration after WATCHDOG_MAX_HITS interrupted calls (each costs the
+    full budget; the run is failing already and the recorded violations name the mechanism)"""
+
+
+WATCHDOG_MAX_HITS = 5
+_WD_HITS = [0]
+
+
+def _on_sigprof(signum, frame):
+    _WD_HITS[0] += 1
+    raise _CpuWatchdog()
+
+
+def abandonable(worker):
+    """decorator for the in-process family workers: -> their result dict, or the partial one on _Abandon"""
+    def wrapped(job):
+        part = {"evals": 0, "outcomes": set(), "viol": {}, "rejected": 0, "abandoned": 0}
+        try:
+            return worker(job, part)
+        except _Abandon:
+            part["abandoned"] = 1
+            part["outcomes"].add(("worker-abandoned-after-interrupted-calls",))
+            return part
+    wrapped.__name__ = worker.__name__
+    wrapped.__doc__ = worker.__doc__
+    return wrapped
+
+
+def call_entry(eng, expr, entry):
+    """One call of a public entry point under a CPU-time watchdog: a call that spins (a retry / polling loop that
+    a zero, inf or nan budget never ends) comes back as ('raise', '_CpuWatchdog') instead of hanging the harness.
+    (A call that sleeps forever burns no CPU and is not caught here.)"""
+    if _WD_HITS[0] >= WATCHDOG_MAX_HITS:
+        raise _Abandon()
+    if signal.getsignal(signal.SIGPROF) is not _on_sigprof:
+        signal.signal(signal.SIGPROF, _on_sigprof)
+    signal.setitimer(signal.ITIMER_PROF, CALL_CPU_BUDGET)
+    try:
+        if entry == "legacy":
+            return call_legacy(eng, expr)
+        return call(eng, expr, entry)
+    finally:
+        signal.setitimer(signal.ITIMER_PROF, 0)
+
+
+ENTRIES = PW_ORDER + ("legacy",)
+
+
+def _add(viol, key, what, case):
+    v = viol.setdefault(key, {"what": what, "n": 0, "case": case})
+    v["n"] += 1
+    if repr(common.jsonable(case)) < repr(common.jsonable(v["case"])):
+        v["what"], v["case"] = what, case
+
+
+@abandonable
+def config_worker(cfgs, part):
+    """Every configuration x core expression x entry point on a FRESH engine (so that a small max_ros cannot make
+    later cases vacuous), the same call twice (the answer repeated; second call sees the first one's bookkeeping)."""
+    core = core_expressions()
+    registered = set(TOOLSETS["cfg"])
+    outcomes, viol = part["outcomes"], part["viol"]
+    with _StrictUtf8Stdout():
+        for cfg in cfgs:
+            desc = cfg_desc(cfg)
+            for kind, cls, expr in core:
+                for entry in ENTRIES:
+                    try:
+                        eng = mk_cfg_engine(cfg)
+                    except Exception as e:  # noqa: BLE001 - a constructor that refuses a configuration is not the evaluator
+                        part["rejected"] += 1
+                        outcomes.add(("config-rejected", cfg[0], cfg[1], type(e).__name__))
+                        continue
+                    for rep in (0, 1):
+                        res, detail, value = call_entry(eng, expr, entry)
+                        part["evals"] += 1
+                        outcomes.add((kind, entry == "legacy", res, detail if res != "ok" or entry == "legacy"
+                                      else type(value).__name__, cfg[0], rep))
+                        for key, what in judge_entry(kind, cls, expr, entry, res, detail, value, bool(TOOL_CALLS),
+                                                     registered, cfg[2], desc):
+                            _add(viol, key, what, {"sub": "config", "nd": cfg_distance(cfg), "cfg": list(cfg), "expr": expr,
+                                                   "kind": kind, "cls": cls, "entry": entry, "rep": rep})
+    return part
+
+
+def replay_config(case):
+    cfg = tuple(case["cfg"])
+    out = []
+    with _StrictUtf8Stdout():
+        eng = mk_cfg_engine(cfg)
+        for rep in range(case["rep"] + 1):
+            res, detail, value = call_entry(eng, case["expr"], case["entry"])
+            if rep == case["rep"]:
+                out = judge_entry(case["kind"], case["cls"], case["expr"], case["entry"], res, detail, value,
+                                  bool(TOOL_CALLS), set(TOOLSETS["cfg"]), cfg[2], cfg_desc(cfg))
+    return out
+
+
+@abandonable
+def hostile_config_worker(job, part):
+    """The hand-written hostile strings and the awkward-to-render successes under every timeout x silent setting
+    (two unusual things at once), all entry points; engines never latch and are reused."""
+    items, cfgs = job
+    outcomes, viol = part["outcomes"], part["viol"]
+    with _StrictUtf8Stdout():
+        engines = [(cfg, mk_cfg_engine(cfg, "rec")) for cfg in cfgs]
+        for tag, expr in items:
+            for cfg, eng in engines:
+                for entry in ENTRIES:
+                    res, detail, value = call_entry(eng, expr, entry)
+                    part["evals"] += 1
+                    outcomes.add((entry == "legacy", res, detail if res != "ok" or entry == "legacy"
+                                  else type(value).__name__, cfg[0], cfg[2]))
+                    for key, what in judge_entry("any", None, expr, entry, res, detail, value, bool(TOOL_CALLS),
+                                                 {"rec"}, cfg[2], cfg_desc(cfg)):
+                        _add(viol, key, what, {"sub": "hostile-config", "nd": cfg_distance(cfg), "cfg": list(cfg), "expr": expr,
+                                               "tag": tag})
+    return part
+
+
+# ---- confinement under every configuration one step away from the baseline ------------------
+@abandonable
+def conf_cfg_worker(job, part):
+    """job = (depth, [probe indices], cfgs): forbidden probe x context x pathway x configuration."""
+    depth, idxs, cfgs = job
+    ctxs = contexts(depth)
+    outcomes, viol = part["outcomes"], part["viol"]
+    with _StrictUtf8Stdout():
+        engines = [(cfg, mk_cfg_engine(cfg), CFG_MAXROS[cfg[1]] < 1e300) for cfg in cfgs]
+        for pi in idxs:
+            cls, probe = PROBES[pi]
+            for t, kind, acc in ctxs:
+                expr = fill(t, probe)
+                for cfg, eng, finite in engines:
+                    for pw in PW_ORDER:
+                        if finite:
+                            eng.repair(1e9)  # public call: keeps a finite max_ros from latching the engine shut
+                        res, detail, value = call_entry(eng, expr, pw)
+                        ran = bool(TOOL_CALLS)
+                        part["evals"] += 1
+                        key = judge_conf(cls, kind, acc, expr, pw, "cfg", res, detail, value, ran)
+                        if res == "raise" and detail == "_CpuWatchdog":
+                            key = judge_entry("any", None, expr, pw, res, detail, value, ran, (), cfg[2], cfg_desc(cfg))[0]
+                        if isinstance(key, str):
+                            outcomes.add((key, cls))
+                            key = None
+                        outcomes.add((res, detail if res != "ok" else type(value).__name__, kind, ran, cfg[0] if res == "ok" else ""))
+                        if key:
+                            _add(viol, key[0], key[1] + f" [engine: {cfg_desc(cfg)}]",
+                                 {"sub": "conf-config", "nd": cfg_distance(cfg), "expr": expr, "pw": pw, "cfg": list(cfg),
+                                  "cls": cls, "kind": kind, "accept": acc})
+    return part
+
+
+def replay_conf_config(case):
+    cfg = tuple(case["cfg"])
+    with _StrictUtf8Stdout():
+        eng = mk_cfg_engine(cfg)
+        res, detail, value = call(eng, case["expr"], case["pw"])
+    j = judge_conf(case["cls"], case["kind"], tuple(case.get("accept") or ()), case["expr"], case["pw"], "cfg", res,
+                   detail, value, bool(TOOL_CALLS))
+    return [j] if isinstance(j, tuple) else []
+
+
+# ---- callback answers: what a registered tool returns / raises ---------------------------------
+class _Plain:
+    """an odd-but-legal tool result: no special methods at all"""
+
+
+_EXC_ARGS = {
+    "UnicodeEncodeError": ("utf-8", SUR, 0, 1, "surrogates not allowed"),
+    "UnicodeDecodeError": ("utf-8", b"\xff", 0, 1, "invalid start byte"),
+    "UnicodeTranslateError": (SUR, 0, 1, "unmappable"),
+    "ExceptionGroup": ("", [ValueError()]),
+}
+_EXC_MESSAGES = [("empty-str", ("",)), ("surrogate", (SUR,)), ("long", ("x" * 20000,)), ("braces", ("{0} %s {",)),
+                 ("nonstr", (None,)), ("two-args", (1, 2))]
+
+
+def tool_answers():
+    """name -> ('ret', value) | ('exc', class, args) | ('assert',).  Exception classes are discovered from the
+    running interpreter: every builtin Exception subclass (BaseException-only classes such as KeyboardInterrupt
+    are a tool's way of stopping the process, not judged), constructed without a message; a few with odd messages."""
+    out = {}
+    rets = [None, 0, False, "", [], {}, (), 0.0, NAN, -0.0, 10 ** 5000, SUR, "\x00", b"", _Plain(), _Plain, len,
+            NotImplemented, Ellipsis, MetabolicResult(success=False, error="x"), ValueError("returned, not raised"),
+            [[[]]] * 3, "x" * 100000]
+    for i, v in enumerate(rets):
+        out[f"ret{i:02d}"] = ("ret", v)
+    skipped = []
+    for name in sorted(vars(builtins)):
+        c = vars(builtins)[name]
+        if not (isinstance(c, type) and issubclass(c, Exception)) or c.__name__ != name:
+            continue
+        args = _EXC_ARGS.get(name, ())
+        try:
+            c(*args)
+        except Exception:  # noqa: BLE001
+            skipped.append(name)
+            continue
+        out[f"exc_{name}"] = ("exc", c, args)
+    for cname in ("ValueError", "KeyError", "AssertionError", "StopIteration", "OSError"):
+        for tag, args in _EXC_MESSAGES:
+            out[f"exc_{cname}_{tag.replace('-', '_')}"] = ("exc", getattr(builtins, cname), args)
+    out["exc_bare_assert"] = ("assert",)
+    return out, skipped
+
+
+def _answer_tool(name, spec):
+    def body(*a, **k):
+        TOOL_CALLS.append((name, len(a), tuple(sorted(k))))
+        if spec[0] == "ret":
+            return spec[1]
+        if spec[0] == "assert":
+            assert not name  # noqa: S101 - a failing bare assert is one of the answers
+        raise spec[1](*spec[2])
+
+    return SimpleTool(name=name, description="answering tool", func=body)
+
+
+ANSWER_SHAPES = ("()", "(1, k=2)")
+
+
+@abandonable
+def answers_worker(job, part):
+    """job = ([tool names], cfgs).  Each answering tool x call shape x entry point x configuration, twice."""
+    names, cfgs = job
+    table, _ = tool_answers()
+    tools = [_answer_tool(nm, table[nm]) for nm in sorted(table)] + [_cached_tool("rec")]
+    registered = set(table) | {"rec"}
+    outcomes, viol = part["outcomes"], part["viol"]
+    with _StrictUtf8Stdout():
+        engines = [(cfg, mk_cfg_engine(cfg, tools=tools)) for cfg in cfgs]
+        for nm in names:
+            for shape in ANSWER_SHAPES:
+                expr = nm + shape
+                for cfg, eng in engines:
+                    for entry in ENTRIES:
+                        for rep in (0, 1):
+                            res, detail, value = call_entry(eng, expr, entry)
+                            part["evals"] += 1
+                            outcomes.add((table[nm][0], entry, res, detail if res != "ok" or entry == "legacy"
+                                          else type(value).__name__, bool(TOOL_CALLS)))
+                            for key, what in judge_entry("any", None, expr, entry, res, detail, value, bool(TOOL_CALLS),
+                                                         registered, cfg[2], cfg_desc(cfg)):
+                                what += (f" [tool {nm!r} " + ("returns " + short(table[nm][1], 40) if table[nm][0] == "ret"
+                                                              else "raises " + (table[nm][1].__name__ + short(table[nm][2], 30)
+                                                                                if table[nm][0] == "exc" else "a bare assert"))
+                                         + "]")
+                                _add(viol, key, what, {"sub": "answers", "nd": cfg_distance(cfg), "cfg": list(cfg), "tool": nm,
+                                                       "shape": shape,
+                                                       "entry": entry, "rep": rep})
+    return part
+
+
+def replay_answers(case):
+    r = answers_worker(([case["tool"]], [tuple(case["cfg"])]))
+    return [(k, v["what"]) for k, v in r["viol"].items()]
+
+
+# ---- history / mutation after construction -----------------------------------------------------
+# Prefix operations: public calls only, on the judged engine E (tools: rec), on ANOTHER engine O of the same process
+# (tools: rec, extra) and re-registrations / attribute settings between construction and the judged call.
+def history_ops():
+    L = mito_mod.MAX_EXPRESSION_LENGTH if isinstance(getattr(mito_mod, "MAX_EXPRESSION_LENGTH", None), int) else 10000
+    ops = [("m", e, pw) for e, pw in (
+        ("1+1", "auto"), ("1+1", "math"), ("rec(1)", "auto"), ("rec(7, k=8)", "tool"), ("1/0", "auto"), ("(1).real", "auto"),
+        ("[1, 2]", "auto"), ("true and false", "logic"), ("{1: [2]}", "transform"), ("x" * (L + 1), "auto"),
+        ("undefined_name", "math"), ("extra(1)", "auto"))]
+    ops += [("legacy", "6*7"), ("legacy", "10**5000"), ("legacy", "(1).real")]
+    ops += [("repair", 0.5), ("observe",), ("exec_tool", "rec"), ("exec_tool", "nosuch")]
+    ops += [("other", e, pw) for e, pw in (("extra(1)", "auto"), ("extra(1)", "tool"), ("rec(1)", "tool"), ("1+1", "math"),
+                                          ("(1).real", "math"), ("[1, 2]", "transform"))]
+    ops += [("engulf", "rec"), ("engulf", "late"), ("register_function", "late"), ("engulf", "abs"), ("pop", "rec"),
+            ("set", "timeout", "0"), ("set", "timeout", "nan"), ("set", "silent"), ("set", "max_ros", "nan")]
+    return ops
+
+
+HISTORY_CASES = [  # (kind, class, expr)
+    ("ok", None, "1+1"), ("ok", None, "2 < 3"), ("ok", None, "[1, 2]"), ("ok", None, "rec(1)"), ("ok", None, "abs(-1)"),
+    ("fail", None, "1/0"), ("fail", None, "undefined_name"), ("fail", None, ""),
+    ("unregistered", None, "extra(1)"), ("unregistered", None, "late(1)"), ("unregistered", None, "nosuch()"),
+    ("forbidden", "Attribute", "(1).real"), ("forbidden", "Subscript", "[1,2][0]"),
+    ("forbidden", "Name-outside", "getattr(1, 'real')"), ("forbidden", "Attribute", "rec((1).real)"),
+    ("forbidden", "Lambda", "(lambda: 1)()"),
+]
+
+
+def _hist_apply(E, O, op, registered):
+    """One prefix operation through public API only; `registered` (harness-side, derived from the calls made) is
+    updated.  Exceptions of calls that are not the judged one are not judged here (every judged family covers
+    the expression entry points; the others are not the evaluator)."""
+    try:
+        if op[0] == "m":
+            call_entry(E, op[1], op[2])
+        elif op[0] == "legacy":
+            call_entry(E, op[1], "legacy")
+        elif op[0] == "repair":
+            E.repair(op[1])
+        elif op[0] == "observe":
+            E.get_statistics(), E.list_tools(), E.export_tool_schemas(), E.get_ros_level(), E.get_efficiency()
+        elif op[0] == "exec_tool":
+            from operon_ai.providers import ToolCall
+            E.execute_tool_call(ToolCall(id="c1", name=op[1], arguments={}))
+        elif op[0] == "other":
+            call_entry(O, op[1], op[2])
+        elif op[0] == "engulf":
+            E.engulf_tool(_mk_tool(op[1]))
+            registered.add(op[1])
+        elif op[0] == "register_function":
+            tl = _mk_tool(op[1])
+            E.register_function(op[1], tl.func, "late")
+            registered.add(op[1])
+        elif op[0] == "pop":
+            E.tools.pop(op[1], None)
+            registered.discard(op[1])
+        elif op[0] == "set":
+            if op[1] == "timeout":
+                E.timeout = CFG_TIMEOUT[op[2]]
+            elif op[1] == "max_ros":
+                E.max_ros = CFG_MAXROS[op[2]]
+            else:
+                E.silent = not E.silent
+    except Exception:  # noqa: BLE001
+        return False
+    return True
+
+
+def _hist_engines(silent):
+    E = mk_engine("rec", silent=silent, max_ros=1.0)
+    O = mk_engine("rec", silent=True, max_ros=1.0)
+    O.engulf_tool(_mk_tool("extra"))
+    return E, O
+
+
+def _hist_judge(kind, cls, expr, entry, res, detail, value, ran, registered, silent, desc, fresh):
+    out = judge_entry("forbidden" if kind == "forbidden" else "any", cls, expr, entry, res, detail, value, ran,
+                      registered, silent, desc)
+    if out and out[0][0].startswith("raises:"):
+        return out
+    accepted = res == "ok" and (entry != "legacy" or detail == "rendered")
+    name = root_call_name(expr)
+    if accepted and name is not None and name not in registered and name not in DOCUMENTED_PURE:
+        out.append((f"unregistered-name-called:{entry}",
+                    f"{desc} {entry}({expr!r}) succeeded with {short(value)} although {name!r} is neither an allow-listed "
+                    f"function nor a tool registered on that engine ({sorted(registered)}) (expected a failure result)"))
+    if accepted and fresh is False and registered == {"rec"} and not out:
+        out.append((f"refused-fresh-accepted-after-history:{entry}",
+                    f"{desc} {entry}({expr!r}) succeeded with {short(value)}; a fresh engine with the same tools refuses "
+                    f"the same string, so the value was not computed from the string with the allow-listed operations "
+                    f"alone (expected a failure result)"))
+    return out
+
+
+@abandonable
+def history_worker(job, part):
+    """job = [prefix] (prefix = tuple of ops).  For every prefix x judged case x entry point x silent: fresh E and O,
+    apply the prefix, make the judged call.  The fresh-engine answers are computed first in the same process."""
+    prefixes = job
+    outcomes, viol = part["outcomes"], part["viol"]
+    with _StrictUtf8Stdout():
+        fresh = {}
+        for silent in (True, False):
+            for kind, cls, expr in HISTORY_CASES:
+                for entry in ENTRIES:
+                    E, O = _hist_engines(silent)
+                    res, detail, _ = call_entry(E, expr, entry)
+                    fresh[(silent, expr, entry)] = res == "ok" and (entry != "legacy" or detail == "rendered")
+        for prefix in prefixes:
+            for silent in (True, False):
+                for kind, cls, expr in HISTORY_CASES:
+                    for entry in ENTRIES:
+                        E, O = _hist_engines(silent)
+                        registered = {"rec"}
+                        applied = tuple(_hist_apply(E, O, op, registered) for op in prefix)
+                        res, detail, value = call_entry(E, expr, entry)
+                        part["evals"] += 1 + len(prefix)
+                        outcomes.add((kind, entry, res, detail if res != "ok" or entry == "legacy" else type(value).__name__,
+                                      bool(TOOL_CALLS), all(applied)))
+                        desc = (f"after {[short(o, 40) for o in prefix]} on " if prefix else "") + \
+                            f"Mitochondria(silent={silent}, tools=['rec'])"
+                        for key, what in _hist_judge(kind, cls, expr, entry, res, detail, value, bool(TOOL_CALLS),
+                                                     registered, E.silent if isinstance(E.silent, bool) else silent, desc,
+                                                     fresh[(silent, expr, entry)]):
+                            _add(viol, key, what, {"sub": "history", "np": len(prefix), "prefix": [list(o) for o in prefix],
+                                                   "silent": silent,
+                                                   "expr": expr, "kind": kind, "cls": cls, "entry": entry})
+    return part
+
+
+def replay_history(case):
+    prefix = tuple(tuple(o) for o in case["prefix"])
+    r = history_worker([prefix])
+    return [(k, v["what"]) for k, v in r["viol"].items()
+            if v["case"]["expr"] == case["expr"] and v["case"]["entry"] == case["entry"]] or \
+        [(k, v["what"]) for k, v in r["viol"].items()]
 
 
 # --------------------------------------------------------------------------------------------
@@ -1167,6 +1768,38 @@ _G = 50000000  # list length of one term of the chained Mult-seq cases (400 MB o
 
 
 def resource_cases(tier):
+    """(class, expr, timeout label), see _resource_base for the expressions.  The base alphabet runs at the 0.5 s
+    timeout; the configured timeout is then varied: every quick-tier cheap expression under EVERY timeout value of
+    the configuration space (a cheap evaluation must come back whatever the budget is), and unbounded ones under the
+    zero / tiny budgets (the bound is 'governed by the timeout': a smaller budget must not make it worse)."""
+    base = _resource_base(tier)
+    out = [(c, e, "0.5") for c, e in base]
+    quick_base = _resource_base("quick")
+    out += [(c, e, t) for t in CFG_TIMEOUT if t != "0.5" for c, e in quick_base if c == "cheap"]
+    small = ("0", "tiny") if tier == "quick" else ("0", "0.0", "-0.0", "denormal", "tiny")
+    heavy = [e for c, e in quick_base if c == "unbounded"]
+    heavy = heavy[:1] + heavy[3:4] if tier == "quick" else heavy
+    out += [("unbounded", e, t) for t in small for e in heavy]
+    if tier != "quick":
+        out += [(c, e, t) for t in ("0", "tiny", "inf", "nan") for c, e in base[len(quick_base):] if c == "cheap"]
+    return out
+
+
+def resource_deadline(tlabel):
+    """-> (CPU seconds the kernel enforces in the child, judged?).  The statement's bound is 'governed by the
+    configured timeout': max(3 s, 6 x timeout) of CPU time.  Where that is not a finite time the harness can wait
+    for (huge / inf / nan budgets) the child still runs under the 3 s limit but exceeding it is only noted."""
+    t = CFG_TIMEOUT[tlabel]
+    try:
+        six = 6 * float(t)
+    except OverflowError:
+        six = INF
+    if six != six or six > 30:
+        return DEADLINE_S, False
+    return max(DEADLINE_S, int(math.ceil(six))), True
+
+
+def _resource_base(tier):
     """(class, expr).  class 'cheap' = must return; 'unbounded' = needs minutes..years of CPU if evaluated
     (>= 10x the deadline even at the most optimistic throughput), so returning in time means the engine
     refused or interrupted it.  Magnitudes are literals wherever a primitive other than the one under
@@ -1207,9 +1840,10 @@ def resource_cases(tier):
     return quick + more
 
 
-def resource_child(expr):
-    """Runs in a forked child under RLIMIT_AS / RLIMIT_CPU."""
-    eng = mk_engine("rec", timeout=ENGINE_TIMEOUT)
+def resource_child(arg):
+    """Runs in a forked child under RLIMIT_AS / RLIMIT_CPU.  arg = (expr, timeout label)."""
+    expr, tlabel = arg
+    eng = mk_cfg_engine((tlabel, "inf", True, "none", "engulf"), "rec")
     t0 = time.process_time()
     res, detail, value = call(eng, expr, "auto")
     cpu = time.process_time() - t0
@@ -1332,28 +1966,35 @@ def first_heavy_primitive(expr):
     return hit[0] if hit else None
 
 
-def judge_resource(cls, expr, status, payload):
-    """-> (outcome tuple, violation (key, what) or None)"""
+def judge_resource(cls, expr, status, payload, tlabel="0.5"):
+    """-> (outcome tuple, violation (key, what) or None | ('note', text))"""
+    deadline, judged = resource_deadline(tlabel)
+    tval = short(CFG_TIMEOUT[tlabel], 12)
     if status == "done":
         if payload["res"] in ("raise", "badtype"):
-            return (cls, "raised", payload["detail"]), (f"raises:{payload['detail']}:silent",
-                                                         f"metabolize({short(expr, 60)}) raised {payload['detail']}")
-        return (cls, "returned-" + payload["res"], payload["detail"].split(":")[0]), None
+            return (cls, "raised", payload["detail"], tlabel != "0.5"), (
+                f"raises:{payload['detail']}:silent",
+                f"Mitochondria(timeout_seconds={tval}).metabolize({short(expr, 60)}) raised {payload['detail']}")
+        return (cls, "returned-" + payload["res"], payload["detail"].split(":")[0], tlabel != "0.5"), None
     if status == "signal" and payload == signal.SIGXCPU:
         prim = first_heavy_primitive(expr)
+        if not judged:
+            return (cls, "cpu-deadline-unjudged", prim, True), ("note", (
+                f"Mitochondria(timeout_seconds={tval}).metabolize({short(expr, 60)}) used more than {deadline} s of CPU; "
+                f"that timeout gives no finite bound the harness can wait for, so this is not judged"))
         key = f"unbounded:{prim}" if prim else "over-deadline:no-heavy-primitive"
-        return (cls, "cpu-deadline", prim), (key, (
-            f"Mitochondria(timeout_seconds={ENGINE_TIMEOUT}).metabolize({short(expr, 60)}) was still running after "
-            f"{DEADLINE_S} s of CPU time ({int(DEADLINE_S / ENGINE_TIMEOUT)}x its configured timeout) and had to be "
+        return (cls, "cpu-deadline", prim, tlabel != "0.5"), (key, (
+            f"Mitochondria(timeout_seconds={tval}).metabolize({short(expr, 60)}) was still running after "
+            f"{deadline} s of CPU time (max(3 s, 6x its configured timeout)) and had to be "
             f"killed; first heavy primitive in evaluation order: {prim or 'none recognised'}; expected a result within a "
             f"bound governed by the timeout"))
     if status == "stuck":
-        raise common.HarnessError(f"resource child for {short(expr, 60)} used < {DEADLINE_S}s CPU in {WALL_BACKSTOP}s "
-                                  f"wall without finishing: machine too loaded to decide, re-run")
+        raise common.HarnessError(f"resource child for {short(expr, 60)} (timeout_seconds={tval}) used < {deadline}s "
+                                  f"CPU in {WALL_BACKSTOP}s wall without finishing: machine too loaded to decide, re-run")
     what = f"signal {payload}" if status == "signal" else f"exit status {payload}"
-    return (cls, "died", str(payload if status == "signal" else "exit")), (
+    return (cls, "died", str(payload if status == "signal" else "exit"), tlabel != "0.5"), (
         f"interpreter-died:{'sig' + str(payload) if status == 'signal' else 'exit'}",
-        f"metabolize({short(expr, 60)}) under a 4 GiB address-space limit ended the process ({what}) instead of "
+        f"Mitochondria(timeout_seconds={tval}).metabolize({short(expr, 60)}) under a 4 GiB address-space limit ended the process ({what}) instead of "
         f"returning a failure result")
 
 
@@ -1484,25 +2125,88 @@ def run(ctx):
     total += _merge(ctx, "total-child", [r])
     distinct += len(hostile) + len(deep) + len(sweep) + len(awkward)
     ctx.sample({"sub": "totality", "expr": hostile[0][1], "silent": False})
+    lap("totality")
+    # ---- 2b configuration space / callback answers / history (totality + confinement + tool discipline)
+    cfgs = full_configs()
+    core = core_expressions()
+    res = common.pmap(config_worker, common.chunked(common.rotate(cfgs, ctx.seed), max(1, nproc * 4)))
+    total += _merge(ctx, "config", res)
+    cfg_rejected = sum(r["rejected"] for r in res)
+    ok_labels = {o[4] for r in res for o in r["outcomes"] if len(o) == 6 and o[2] == "ok"}
+    never_ok = [t for t in CFG_TIMEOUT if t not in ok_labels]
+    if never_ok:
+        ctx.note(f"under timeout_seconds in {[short(CFG_TIMEOUT[t], 12) for t in never_ok]} no core expression succeeds on any "
+                 f"pathway: every evaluation comes back as a failure result (allowed by the statement; observation)")
+    abandoned = sum(r.get("abandoned", 0) for r in res)
+    distinct += len(cfgs) * len(core)
+    ctx.sample({"sub": "config", "cfg": list(cfgs[0]), "expr": core[0][2], "entry": "auto"})
+    tcfgs = [(t, "inf", sl, "none", "engulf") for t in CFG_TIMEOUT for sl in (True, False)]
+    hitems = hostile + awkward
+    res = common.pmap(hostile_config_worker, [(c, tcfgs) for c in common.chunked(common.rotate(hitems, ctx.seed),
+                                                                                 max(1, nproc * 2))])
+    total += _merge(ctx, "hostile-config", res)
+    abandoned += sum(r.get("abandoned", 0) for r in res)
+    distinct += len(hitems) * len(tcfgs)
+    lap("config")
+    star = star_configs()
+    cdepth = 1 if quick else 2
+    res = common.pmap(conf_cfg_worker, [(cdepth, [i], star) for i in order])
+    total += _merge(ctx, "conf-config", res)
+    abandoned += sum(r.get("abandoned", 0) for r in res)
+    n_cfg_ctx = len(contexts(cdepth))
+    distinct += len(PROBES) * n_cfg_ctx * len(star)
+    lap("conf-config")
+    answers, answers_skipped = tool_answers()
+    res = common.pmap(answers_worker, [(c, tcfgs) for c in common.chunked(common.rotate(sorted(answers), ctx.seed),
+                                                                           max(1, nproc))])
+    total += _merge(ctx, "answers", res)
+    abandoned += sum(r.get("abandoned", 0) for r in res)
+    distinct += len(answers) * len(ANSWER_SHAPES) * len(tcfgs)
+    hops = history_ops()
+    prefixes = [()] + [(a,) for a in hops] + [(a, b) for a in hops for b in hops]
+    res = common.pmap(history_worker, common.chunked(common.rotate(prefixes, ctx.seed), max(1, nproc * 4)))
+    total += _merge(ctx, "history", res)
+    abandoned += sum(r.get("abandoned", 0) for r in res)
+    distinct += len(prefixes) * len(HISTORY_CASES) * 2
+    ctx.sample({"sub": "history", "prefix": [list(hops[2]), list(hops[-5])], "expr": "rec(1)", "entry": "auto"})
+    lap("answers+history")
+    # ---- ROS latch histories (engine A).  Runs after the history family: when an engine's behaviour depends on
+    # something outside the instance (which that family reports), the snapshot/replay self-check of this model
+    # cannot hold and the search is skipped with a note instead of discarding the violations already found.
     from mc import explore
-    RosModel().selfcheck_clone()
     ros_depth = 30 if quick else 60
-    ros = explore.explore(RosModel(), ctx, ros_depth, nproc=1, label="ros")
+    try:
+        RosModel().selfcheck_clone()
+        ros = explore.explore(RosModel(), ctx, ros_depth, nproc=1, label="ros")
+    except common.HarnessError as e:
+        if not ctx.violation_count:
+            raise
+        ctx.note(f"ROS history search skipped: {e} (violations were already found; the engine's state is not confined "
+                 f"to the instance, so state snapshots are not faithful on this tree)")
+        ros = {"states": 1, "transitions": 1, "fixpoint": False, "depth_completed": 0}
     total += ros["transitions"]
-
-    lap("totality+ros")
+    lap("ros")
     # ---- 3 resource
     cases = resource_cases(ctx.tier)
     rot = common.rotate(cases, ctx.seed)
-    rres = run_children(resource_child, [e for _, e in rot], DEADLINE_S, max(1, min(nproc, 16)))
+    rres = run_children(resource_child, [(e, t) for _, e, t in rot], [resource_deadline(t)[0] for _, _, t in rot],
+                        max(1, min(nproc, 16)))
     slow_cheap = []
     n_over = 0
-    for (cls, expr), (status, payload) in sorted(zip(rot, rres), key=lambda z: cases.index(z[0])):
-        outcome, viol = judge_resource(cls, expr, status, payload)
+    for (cls, expr, tl), (status, payload) in sorted(zip(rot, rres), key=lambda z: cases.index(z[0])):
+        try:
+            outcome, viol = judge_resource(cls, expr, status, payload, tl)
+        except common.HarnessError as e:
+            if not ctx.violation_count:
+                raise
+            ctx.note(f"undecided resource case (the run already has violations): {e}")
+            continue
         ctx.outcomes.add(("resource",) + outcome)
         total += 1
-        if viol:
-            ctx.report(viol[0], viol[1], {"sub": "resource", "cls": cls, "expr": expr})
+        if viol and viol[0] == "note":
+            ctx.note(viol[1])
+        elif viol:
+            ctx.report(viol[0], viol[1], {"sub": "resource", "cls": cls, "expr": expr, "timeout": tl})
         if status != "done":
             n_over += 1
         elif payload["cpu_ms"] * 10 > DEADLINE_S * 1000:
@@ -1519,6 +2223,13 @@ def run(ctx):
         print("C01 phases:", " ".join(phases))
     if unvetted:
         ctx.note(f"names accepted that the harness does not know as documented-pure (observation): {unvetted}")
+    if abandoned:
+        ctx.note(f"{abandoned} worker jobs of the configuration / history families gave up after {WATCHDOG_MAX_HITS} calls "
+                 f"that had to be interrupted (no-return:* violations recorded); their remaining cases were not run")
+        ctx.coverage["caps_hit"] = f"{abandoned} in-process worker jobs abandoned after interrupted calls"
+    if cfg_rejected:
+        ctx.note(f"{cfg_rejected} engine constructions were refused by the constructor for their configuration "
+                 f"(not the evaluator; those configurations were not judged)")
     ctx.coverage.update(
         states=ros["states"],
         transitions=ros["transitions"],
@@ -1527,11 +2238,18 @@ def run(ctx):
         distinct_nontrivial=distinct,
         rule="engine D: every (forbidden-node probe x allowed context with one hole up to the stated depth) string, "
              "every (name x call shape), every trick/hostile/magnitude string, each run on every pathway x tool set "
-             "(x silent setting for totality) of the real Mitochondria; distinct_nontrivial counts distinct input "
+             "(x silent setting for totality) of the real Mitochondria; section 2b crosses the constructor "
+             "configuration space (timeout_seconds x max_ros x silent x allowed_capabilities, full product, plus the "
+             "three registration routes) with a core expression set on every entry point on fresh engines (each call "
+             "twice), the hostile / awkward strings with timeout x silent, the depth-limited confinement contexts with "
+             "every configuration one dimension away from the baseline, every tool answer (return values, every "
+             "builtin Exception class) with timeout x silent, and every prefix of <=2 public operations (same engine, "
+             "another engine, re-registration, attribute setting) with a judged case set; the resource alphabet is "
+             "crossed with the timeout values; distinct_nontrivial counts distinct input "
              "strings (per probe for confinement), all of which contain a forbidden construct, an unknown name, a "
              "hostile feature or a size-like operand; states/transitions are the ROS-latch history search "
              "(canonical state = (ros level, latched))",
-        exhaustive=not unprobed,  # every stated finite space (strings below; ROS histories up to ros_depth) is enumerated completely
+        exhaustive=not unprobed and not abandoned,  # every stated finite space (strings below; ROS histories up to ros_depth) is enumerated completely
         ros_history_depth=ros_depth,
         context_depth=depth,
         contexts=len(ctxs),
@@ -1559,12 +2277,30 @@ def run(ctx):
         ros_fixpoint=ros["fixpoint"],
         ros_depth_completed=ros["depth_completed"],
         resource_cases=len(cases),
+        resource_timeout_labels=sorted({t for _, _, t in cases}),
+        config_timeout_values=[short(v, 14) for v in CFG_TIMEOUT.values()],
+        config_max_ros_values=[short(v, 14) for v in CFG_MAXROS.values()],
+        config_capability_sets=list(CFG_CAPS),
+        config_registration_routes=list(CFG_REG),
+        configurations_full_product=len(cfgs),
+        configurations_rejected_by_constructor=cfg_rejected,
+        core_expressions=len(core),
+        configurations_star=len(star),
+        conf_config_context_depth=cdepth,
+        conf_config_contexts=n_cfg_ctx,
+        tool_answers=len(answers),
+        tool_answer_exception_classes_skipped=answers_skipped,
+        history_prefix_ops=len(hops),
+        history_prefixes=len(prefixes),
+        history_prefix_depth=2,
+        history_cases=len(HISTORY_CASES),
         resource_deadline_cpu_s=DEADLINE_S,
         resource_engine_timeout_s=ENGINE_TIMEOUT,
         resource_as_limit_bytes=AS_LIMIT,
     )
     if not ros["fixpoint"]:
-        ctx.coverage["caps_hit"] = (f"ROS history search is depth-bounded ({ros['depth_completed']}): the level is a float "
+        ctx.coverage["caps_hit"] = (ctx.coverage.get("caps_hit", "") and ctx.coverage["caps_hit"] + "; ") + (
+            f"ROS history search is depth-bounded ({ros['depth_completed']}): the level is a float "
                                     f"sum of 0.1 steps, so exact-state search has no fixpoint; all histories up to that "
                                     f"depth are covered")
     ctx.assumptions += [
@@ -1582,6 +2318,21 @@ def run(ctx):
         "is pure JSON / Python literal data; on the data-transformation pathway literal parsing is the documented "
         "purpose and they are not judged",
         "digest_glucose's contract is taken to be: returns a str for every input (rendered value or failure text)",
+        "configuration values are ints/floats for timeout_seconds and max_ros (including 0, -0.0, denormal, huge, a "
+        "huge int, inf, nan; negative and non-numeric values are outside the documented parameter types); a constructor "
+        "that refuses a configuration is not judged (the statement is about evaluating expression strings)",
+        "a registered tool may return anything and raise any Exception subclass (the engine must turn it into a "
+        "failure result); BaseException-only classes (KeyboardInterrupt, SystemExit, GeneratorExit) and results / "
+        "exceptions whose own __str__ raises are the tool author's way of breaking the process and are not judged",
+        "which tools an engine has registered is tracked by the harness from the public registration calls it made "
+        "(engulf_tool / register_function / tools= / tools.pop), never read back from the engine",
+        "a string that a fresh engine with the same tools refuses must not succeed after a history of other calls "
+        "(its value could not have been computed from the string by the allow-listed pure operations alone); "
+        "differences in the other direction (ROS latch, zero timeout) are legitimate and not judged",
+        "for timeout values whose 6x multiple is not a waitable finite time (> 30 s, inf, nan) exceeding the 3 s CPU "
+        "limit on a cheap expression is noted, not judged",
+        "history prefixes are depth 2 in both tiers; the positional sweep and the deep-nesting children are not crossed "
+        "with the timeout dimension",
     ]
 
 
@@ -1600,9 +2351,21 @@ def replay(ctx, case):
         r = run_totality_children([(case["tag"], case["expr"])], 1)
         return [(k, v["what"]) for k, v in r["viol"].items()]
     if sub == "resource":
-        (status, payload), = run_children(resource_child, [case["expr"]], DEADLINE_S, 1)
-        _, viol = judge_resource(case["cls"], case["expr"], status, payload)
-        return [viol] if viol else []
+        tl = case.get("timeout", "0.5")
+        (status, payload), = run_children(resource_child, [(case["expr"], tl)], resource_deadline(tl)[0], 1)
+        _, viol = judge_resource(case["cls"], case["expr"], status, payload, tl)
+        return [viol] if viol and viol[0] != "note" else []
+    if sub == "config":
+        return replay_config(case)
+    if sub == "hostile-config":
+        r = hostile_config_worker(([(case["tag"], case["expr"])], [tuple(case["cfg"])]))
+        return [(k, v["what"]) for k, v in r["viol"].items()]
+    if sub == "conf-config":
+        return replay_conf_config(case)
+    if sub == "answers":
+        return replay_answers(case)
+    if sub == "history":
+        return replay_history(case)
     if "root" in case:
         from mc import explore
         return explore.replay_case(RosModel(), {"root": list(case["root"]), "hist": [list(o) for o in case["hist"]],
